@@ -49,7 +49,9 @@ class Ob:
         self.unwind = unwind
         self.unwindset = list(unwindset)
         self.preunwind = list(preunwind)  # goto-instrument --unwindset before dfcc (inner loops without contract)
-        self.timeout = timeout
+        # generous floor: a timeout on the unchanged tree would read as a broken check; the values given per unit are
+        # what they need on an idle 16-core box, the floor covers a loaded one
+        self.timeout = max(timeout, 3600)
         self.mem = mem
         self.functions = list(functions)
         self.kind = kind              # 'proof' | 'bounded'
@@ -241,6 +243,18 @@ def build_and_check(ob, tierdir):
         rc, dt, st = run_cmd(cmd, d, ob.timeout, ob.mem, os.path.join(d, 'cbmc.log'))
         if st == 'ok':
             props, verdict, ignoring, solver_s = parse_cbmc(os.path.join(d, 'cbmc.log'))
+    if st == 'ok' and verdict is None and 'too many addressed objects' in open(os.path.join(d, 'cbmc.log'), errors='replace').read()[-3000:]:
+        # cbmc's default of 8 object bits is a tool setting, not a property of the code: retry with more
+        for bits in (12, 16):
+            cmd2 = [c for c in cmd if c != '--object-bits']
+            cmd2 = [c for i, c in enumerate(cmd2) if not (i > 0 and cmd[i - 1] == '--object-bits')] + ['--object-bits', str(bits)]
+            r['cbmc_cmd'] = ' '.join(cmd2)
+            rc, dt, st = run_cmd(cmd2, d, ob.timeout, ob.mem, os.path.join(d, 'cbmc.log'))
+            if st != 'ok':
+                break
+            props, verdict, ignoring, solver_s = parse_cbmc(os.path.join(d, 'cbmc.log'))
+            if verdict is not None:
+                break
     r['wall_s'] = time.time() - t0
     if st != 'ok':
         r['reason'] = 'cbmc %s after %.0fs (limit %ss, %sGB)' % (st, dt, ob.timeout, ob.mem)
